@@ -322,7 +322,7 @@ def _lax_probe(f):
             return bool(f(p, a))
         except Exception:
             return False
-    return (q('/a', '/ab'), q('/?', '//') or q('/*', '/a/b'))
+    return (q('/a', '/ab'), q('/?', '//') or q('/*', '/a/b'), q('/[!a]', '//'))
 
 
 def _match_class(p, a, got, exp, lax):
@@ -334,6 +334,9 @@ def _match_class(p, a, got, exp, lax):
     special_in, minus_last, comma_out = _pattern_features(p)
     if comma_out:
         return 'comma-outside-braces'
+    if got is True and exp is False and lax[2] \
+            and _relaxed_match(P, A, lax[0], lax[1], True):
+        return 'negated-set-matches-slash'
     if special_in:
         return 'special-char-inside-brackets'
     if minus_last:
@@ -1946,9 +1949,8 @@ def _disp_run_history(hs, item):
                     if env is None:
                         return [None]        # loopback probe lost: inconclusive
                     t0, t1, sender, port = env
-                    obs = [e for e in log[n0:] if not model[e[0]].unspec]
-                    v = _disp_compare(hs, item, step, model, q, variant, obs,
-                                      t0, t1, sender, port)
+                    v = _disp_compare(hs, item, step, model, q, variant,
+                                      log[n0:], t0, t1, sender, port)
                     if v is not None:
                         return [v]
             except RuntimeError:
@@ -1963,7 +1965,17 @@ def _disp_run_history(hs, item):
     return []
 
 
-def _disp_compare(hs, item, step, model, q, variant, obs, t0, t1, sender, port):
+def _disp_compare(hs, item, step, model, q, variant, raw, t0, t1, sender, port):
+    # a responder whose state is no longer specified may or may not run its
+    # kill function: its target is no longer specified either
+    changed = True
+    while changed:
+        changed = False
+        for m in model:
+            if m.unspec and m.kill is not None and not model[m.kill].unspec:
+                model[m.kill].unspec = True
+                changed = True
+    obs = [e for e in raw if not model[e[0]].unspec]
     cands = []
     why_not = {}
     for m in model:
@@ -1991,8 +2003,8 @@ def _disp_compare(hs, item, step, model, q, variant, obs, t0, t1, sender, port):
     for e in obs:
         byrid.setdefault(e[0], []).append(e)
     what0 = 'history %r, message %d: ' % (item[1], step)
-    removal = any(c.rid in byrid and (c.oneshot != 'no' or c.kill is not None)
-                  for c in cands)
+    removal = any(model[e[0]].oneshot != 'no' or model[e[0]].kill is not None
+                  for e in raw)
     for rid, es in byrid.items():
         m = model[rid]
         if rid in why_not:
